@@ -32,6 +32,19 @@ for d in sorted(glob.glob(os.path.join(V, 'seeded', '*'))):
     res = '; '.join(m.get('check_result') or ['(no output)'])
     res = re.sub(r'replay=\S+', 'replay=...', res)
     out.append('| %s | %s | %s | %s |' % (os.path.basename(d), m['property'], res, needs))
+out.append('\n### 11.4 Behaviour-preserving refactorings (written by independent sub-agents, each with an old-vs-new equivalence harness) and what the checks say\n')
+rp = os.path.join(V, 'seeded', 'refactor', 'results.json')
+if os.path.exists(rp):
+    rs = json.load(open(rp))
+    ok = sum(1 for r in rs if any(c.startswith('OK') for c in r['check_result']))
+    out.append('%d refactorings over %d properties; %d leave the quick check at OK (a KNOWN-FINDING line may precede it).\n' % (len(rs), len({r['property'] for r in rs}), ok))
+    out.append('| Refactoring | Check outcome | What was refactored |')
+    out.append('|---|---|---|')
+    for r in rs:
+        res = '; '.join(c[:60] for c in r['check_result']) or '(no output)'
+        if r.get('history'):
+            res += ' — ' + r['history']
+        out.append('| %s | %s | %s |' % (r['name'], res.replace('|', '/'), r['summary'][:160].replace('|', '/')))
 block = '\n'.join(out) + '\n'
 p = os.path.join(V, 'DESIGN.md')
 s = open(p).read()
